@@ -39,12 +39,11 @@ THEOREM CentreCropOffset ==
                       1 <= w, w < n, a + a <= n, n < a + a + 2, b + b <= w, w < b + b + 2
                PROVE  0 <= a - b /\ (a - b) + w <= n /\ (a - b) + (a - b) - 1 <= n - w /\ n - w <= (a - b) + (a - b) + 1
       OBVIOUS
-  <1> DEFINE o == a - b
-  <1>0. o \in Int  OBVIOUS
-  <1>1. o + o - 1 <= n - w /\ n - w <= o + o + 1  OBVIOUS
-  <1>2. 0 <= o  BY <1>0, <1>1
-  <1>3. (o + w) + (o + w) <= n + n  BY <1>0
-  <1>4. o + w <= n  BY <1>0, <1>3
+  <1>a. n <= a + a + 1 /\ w <= b + b + 1  OBVIOUS
+  <1>1. (a - b) + (a - b) - 1 <= n - w /\ n - w <= (a - b) + (a - b) + 1  BY <1>a
+  <1>2. 0 <= a - b  BY <1>1
+  <1>3. ((a - b) + w) + ((a - b) + w) <= n + n  BY <1>a
+  <1>4. (a - b) + w <= n  BY <1>3
   <1> QED BY <1>1, <1>2, <1>4
 \* the float arange of extend_dim_width as found could return extra + 1 elements: then the width is wrong
 THEOREM FloatArangeBreaksWidth == \A n, extra \in Int : n + (extra + 1) # n + extra
